@@ -8,7 +8,7 @@ hook_commits = [l.strip() for l in open(os.path.join(ROOT, "tools/hook_commits.t
 
 T = {
  "C01": ("exploration", "session", "history checker over boundary event log vs. simulated MPD server (reply = pure function of request id)",
-         "Runs the real tokio client against a simulated MPD server on a paused-clock current-thread runtime with seeded select!; every request carries a unique id and the reply is recomputed from it; checks own-reply, per-caller order, partial list failure, cancellation pairs. Holds on the explored schedules only.",
+         "Runs the real tokio client against a simulated MPD server on a paused-clock current-thread runtime with seeded select!; every request carries a unique id and the reply is recomputed from it; checks own-reply, per-caller order, partial list failure, undisturbed others under cancellation; directed scenarios, bounded-exhaustive timing grids, random ones (back-pressure, dropped / unpolled events receiver, stalled shutdown, password connects), a server that rejects idle, real-thread stress in the thorough tier. Every third case runs under a TRACE tracing subscriber. Holds on the explored schedules only.",
          "Simulated transport/server (harness) model MPD's idle/noidle/command-list semantics; schedules are those of a cooperative single-thread executor plus real-thread stress in the thorough tier."),
  "C02": ("exploration", "wire", "metamorphic differential monitor (segmentation independence) + receive-buffer invariant hook",
          "Every generated stream is decoded whole (reference) and under byte-wise, random k-way and (exhaustive or edge-windowed) 2-way splits on the blocking and async connections; results must be identical; buffer bookkeeping invariants asserted at the verif-hooks probes. Sampled streams, exhaustive split points for short streams.",
@@ -17,11 +17,11 @@ T = {
          "Random abstract sessions are serialised by an independent reference encoder and must be decoded by the real connections into exactly the same frames/fields/binary/error, followed by Ok(None).",
          "Reference encoder written from the MPD protocol document; normalisation at documented non-injective points."),
  "C04": ("exploration", "session", "history checker: event sequence == concatenation of changed: lines delivered",
-         "Sessions with dense notification schedules, split idle replies and racing requests; the sequence from ConnectionEvents::next must equal the changed lines the simulated server wrote in idle/noidle replies.",
+         "Sessions with dense notification schedules, split idle replies and racing requests; the sequence from ConnectionEvents::next must equal the changed lines the simulated server wrote in idle/noidle replies; at the quiescent end of a fault-free session everything reported must have arrived; sessions ending in a transport fault must still deliver every change of a reply the client completely read.",
          "Simulated server; set and list semantics for pending changes both generated."),
  "C05": ("exploration", "session", "online protocol-state monitor in the simulated server + offline outstanding-request checker",
          "Every line the client writes is judged against what had been completely delivered to it (<=1 outstanding, only noidle during idle, first line idle/password, bounded re-idle in virtual time).",
-         "Re-idle delay read through the hook; bounded-progress restatement of liveness (D + 1 s virtual)."),
+         "Re-idle delay D measured at the boundary by a calibration session (not read from the code); bounded-progress restatement of liveness (D + 1 s virtual)."),
  "C06": ("exploration", "cmd", "reference-model monitor: port of MPD's request tokenizer applied to the bytes written by Connection::send",
          "Exhaustive over short strings of one representative per character class, plus random long ones, in all argument positions; the tokenizer port must give back name and arguments byte for byte. Known-finding classes are matched by input predicate and failure mode.",
          "Port of MPD util/Tokenizer.cxx + client line handling (trusted base, self-tested against the protocol document's examples); MPD's 16-argument and 4 KiB limits not modelled."),
@@ -29,13 +29,13 @@ T = {
          "Exhaustive over all 1- and 2-byte ASCII names, all command_list spellings, LF at every position for all Argument types incl. user-defined renderers, random accept/reject histories with clone/==/Hash comparison.",
          "Renderers that delete bytes from the buffer are outside 'emit'."),
  "C08": ("fault_enumeration", "session", "fault-injection history checker (every byte position / write index / event instant of base scripts)",
-         "Each base script is first run fault-free, then re-run with EOF, persistent read error, malformed line, persistent write error or handle drop injected at every position; every call must resolve before a far virtual deadline, closure must be reported as the property says.",
+         "Each base script is first run fault-free, then re-run with EOF, persistent read error (six error kinds), malformed line, malformed bytes without line end from a peer that then stays silent, persistent write error, server-side close or handle drop injected at every position; every call must resolve before a far virtual deadline, closure must be reported as the property says (incl. after an in-flight caller gave up, with an unpolled events receiver, with a transport whose shutdown never completes).",
          "Faults are those of the simulated transport; hang = pending at a virtual-time deadline no component can legitimately wait for."),
  "C09": ("exploration", "wire", "panic/abort + read-budget monitor and differential check against a whole-buffer reference decoder",
-         "Random, dictionary and mutated streams under three segmentations on both flavours in child processes; no panic/abort, reads bounded, every complete malformed line -> InvalidMessage, no data that is not in the input.",
+         "Random, dictionary and mutated streams under three segmentations on both flavours in child processes; no panic/abort, reads bounded, every complete malformed line -> InvalidMessage, no data that is not in the input; receive() is called twice more after the terminal item (no panic, no reading past the end); every third case under a TRACE tracing subscriber.",
          "Reference decoder (hand-written byte loops) is the trusted base; one documented abstention (binary length not representable)."),
  "C10": ("fault_enumeration", "wire", "cut-point enumeration monitor against encoder-recorded response boundaries",
-         "Every cut offset of every generated well-formed stream and every prefix of valid greetings, three segmentations, both flavours.",
+         "Every cut offset of every generated well-formed stream and every prefix of valid greetings, three segmentations, both flavours; big streams (buffer-edge and 66 KB - 2.3 MB responses) with sampled cuts.",
          "Boundaries recorded by the reference encoder."),
  "C11": ("exploration", "cmd", "reference-model monitor: ports of MPD's tokenizer and filter-expression parser vs. mirror tree",
          "Random trees (depth/width <= 6) and exhaustive short values over the special alphabet, through find/count/list; parsed expression must equal the mirror tree modulo AND flattening.",
@@ -62,10 +62,10 @@ T = {
          "Greeting strings of every shape under all 2-way splits on both flavours and all connect entry points; password verdicts OK/ACK/close/garbage with delayed, chopped replies.",
          "Greeting grammar from the protocol document."),
  "C19": ("exploration", "wire", "lock-step Vec-based model of Frame/Response",
-         "Random operation histories (find/get/take_binary/iteration from both ends) compared step by step with the model.",
+         "Random operation histories (find/get/take_binary/iteration from both ends, the provided iterator methods nth/nth_back/skip/step_by/last/count/rev/fold on all four iterator types) compared step by step with the model.",
          "Frames bounded at 40 fields."),
  "C20": ("exploration", "cmd+session", "exhaustive pair monitor over name tables",
-         "All pairs of named/catch-all tags and subsystems (Eq, Hash with three hashers, Ord, map lookup), all short candidate tag strings, subsystem names through a real session.",
+         "All pairs of named/catch-all tags and subsystems (Eq, Hash with three hashers, Ord, map lookup), all short candidate tag strings, EVERY Unicode scalar value inside a name, names of every length up to 70 and up to 5000 bytes, names tagging tools use, subsystem names through a real session.",
          "Name tables from MPD tag/Names.c and IdleFlags.cxx."),
 }
 
@@ -106,7 +106,7 @@ m = {
  ],
  "checks": checks,
  "not_applicable": na,
- "notes": "All checks are runtime monitors over executions of the real code; exit 0 held / 1 VIOLATION / 2 INCONCLUSIVE. VERIF_SEED and VERIF_TIER honoured. Known findings: KNOWN_FINDINGS.txt.",
+ "notes": "All checks are runtime monitors over executions of the real code; exit 0 held / 1 VIOLATION / 2 INCONCLUSIVE. VERIF_SEED and VERIF_TIER honoured. Known findings: KNOWN_FINDINGS.txt. Seeded breaking changes (229, with which check reports which): seeded/ and DESIGN.md 11.5; property-preserving changes used to hunt false alarms (88): benign/ and DESIGN.md 11.6.",
 }
 json.dump(m, open(os.path.join(ROOT, "MANIFEST.json"), "w"), indent=1)
 print("MANIFEST.json:", len(checks), "checks,", len(na), "not applicable")
